@@ -5,16 +5,27 @@
 // so Execute / pool submission / panic routing are production code) are run through the
 // production pipeline query.NewExecutePipeline(...).Execute(...). Async stages run on a real
 // concurrent.Pool and block on a gate inside their plan node's operator; the harness releases
-// the gates in a generated order and waits for the released stage's completion (and for every
-// newly submitted async stage to reach its gate) before it releases the next one, so the
-// completion order is owned by the harness. A second test releases all blocked stages at once
-// ("waves"), so that stages really complete concurrently.
+// the gates in a generated order and, before it releases the next one, waits until the handler
+// the pipeline passed to Stage.Execute for the released stage has returned (see hStage) and
+// every newly submitted async stage has reached its gate, so the completion order is owned by
+// the harness. Complete() of a stage can be slow (nodeSpec.HoldComplete, see run.hold): the next
+// stage is released while the stage is inside Complete(). A second test releases all blocked
+// stages at once ("waves"), so that stages really complete concurrently.
 //
 // Where a stage panics is a generated dimension (fault point): inside its operator (Execute), or
 // in one of the three methods every concrete stage supplies itself and the pipeline calls around
 // the operator: Plan() (always inline in the goroutine that completed the parent: the caller or
 // a pool worker of an ancestor, also for async stages), NextStages() (in the goroutine that ran
 // the operator) and Complete() (inside the state machine's completeStage).
+//
+// What Identifier() of a stage returns is a generated attribute as well (see identGen):
+// production stages are NOT uniquely named. shardScanStage.NextStages creates one
+// "Grouping[Shard(n)]" stage per series container of the shard (async siblings with one
+// identifier, in flight at the same time), each of them creates a "Data Load[<family time>]"
+// stage per time segment (async cousins with one identifier below parents with one identifier),
+// and the root creates several "TaskSend" stages. So stages that share an identifier with a
+// concurrently running sibling, cousin, ancestor or unrelated stage are generated deliberately;
+// the pipeline must keep the bookkeeping of such stages apart.
 package c19
 
 import (
@@ -110,11 +121,44 @@ type nodeSpec struct {
 	Plan      int
 	Pre, Post int
 	Prio      int // release priority among async stages (lower first); serial mode only
+	// HoldComplete (async stages, serial mode): Complete() of the stage takes long - it returns
+	// only when a stage the harness released meanwhile has been handled completely by the
+	// pipeline, or after holdBound (see run.hold).
+	HoldComplete bool
+	// Ident is the label Identifier() of the stage is built from; stages with the same label
+	// return the same identifier. "" = a label of its own (the stage number).
+	Ident string
 }
 
 type caseSpec struct {
-	Nodes []nodeSpec
-	Wave  bool // release all blocked stages at once instead of one by one
+	Nodes     []nodeSpec
+	Wave      bool   // release all blocked stages at once instead of one by one
+	IdentMode string // how the identifiers were generated (evidence only), "" = unique
+}
+
+// identifier is what Stage.Identifier() of stage i returns.
+func (s *caseSpec) identifier(i int) string {
+	if l := s.Nodes[i].Ident; l != "" {
+		return "c19-ident-" + l
+	}
+	return fmt.Sprintf("c19-stage-%d", i)
+}
+
+func (s *caseSpec) isAncestor(a, i int) bool {
+	for p := s.Nodes[i].Parent; p >= 0; p = s.Nodes[p].Parent {
+		if p == a {
+			return true
+		}
+	}
+	return false
+}
+
+func (s *caseSpec) level(i int) int {
+	l := 1
+	for p := s.Nodes[i].Parent; p >= 0; p = s.Nodes[p].Parent {
+		l++
+	}
+	return l
 }
 
 func (s *caseSpec) canon() string {
@@ -132,6 +176,12 @@ func (s *caseSpec) canon() string {
 		}
 		if n.Fault != faultNone {
 			fmt.Fprintf(&sb, "!%s%d", faultNames[n.Fault], n.PanicKind)
+		}
+		if n.Ident != "" {
+			fmt.Fprintf(&sb, "~%s", n.Ident)
+		}
+		if n.HoldComplete {
+			sb.WriteString(":hold")
 		}
 		switch n.Plan {
 		case planComposite:
@@ -198,6 +248,15 @@ type result struct {
 	Faulted       []int // panics raised by the stage outside its operator (Plan / NextStages / Complete)
 	PlannedAtCb   []int // copies taken inside the first callback
 	EndedAtCb     []int
+	HandlerAtCb   []int // handler calls (see hStage) per stage inside the first callback
+	// EarlyComplete: stages whose Complete() was called although their operator had not ended
+	// (or never ran), in the order seen; Collisions: relations of stages that were registered while another stage
+	// with the same identifier was registered and not yet completed (evidence).
+	EarlyComplete []int
+	Collisions    []string
+	// Held: Complete() calls that were held; Overtaken: of these, the ones that ended because a
+	// stage released during the hold was handled completely (else: holdBound expired)
+	Held, Overtaken int
 	// X<i> stage i runs (after its gate), E<i> its operator ended, C<i> Complete(), CB callback,
 	// PP<i> / NP<i> / CP<i>: Plan() / NextStages() / Complete() of stage i panics
 	Seq []string
@@ -221,6 +280,133 @@ type run struct {
 	cbErr       error
 	plannedAtCb []int
 	endedAtCb   []int
+	handlerAtCb []int
+
+	live          []bool // registered with the state machine (Plan() called), Complete() not yet called
+	collisions    map[string]bool
+	earlyComplete []int // see result.EarlyComplete
+
+	// handler bookkeeping per stage (see hStage): calls so far, calls running now, and whether a
+	// further call must follow (the last one panicked on a pool worker: the pool's recover
+	// calls the stage's error handler)
+	hCalls, hDepth []int
+	hExpectErr     []bool
+
+	relSeq                  int   // releases so far
+	relAt                   []int // relSeq at the release of the stage (0 = not released)
+	holdActive, holdExpired []bool
+	holdSince               []int // relSeq when the hold began
+	held, overtakes         int
+}
+
+// holdBound bounds a held Complete(). The unchanged pipeline calls Complete() under the lock of
+// its state machine, so no other stage can be handled completely meanwhile and every hold lasts
+// holdBound (wall clock as a liveness bound only; the oracle does not depend on it).
+const holdBound = 2 * time.Millisecond
+
+// hold (called from Complete() of stage id): if another stage is parked on its gate (or on its way to it), keep
+// Complete() from returning until a stage released from now on has been handled completely
+// (its handlers returned) or holdBound has passed. The main loop treats a holding stage as
+// quiescent and releases the next stage, so "the next stage runs and completes while this one is
+// inside Complete()" is a schedule of the harness, not a matter of luck.
+func (r *run) hold(id int) {
+	r.mu.Lock()
+	defer r.mu.Unlock()
+	parked := false
+	for j := range r.spec.Nodes {
+		if n := &r.spec.Nodes[j]; n.Async && n.Fault != faultPlan && r.planned[j] > 0 && !r.released[j] {
+			parked = true // (submitted; it may still be on its way to the gate)
+		}
+		if r.holdActive[j] {
+			// one hold at a time: two holders that are overtaken by the same stage would resume
+			// at the same moment, in an order the harness does not own (cannot happen on the
+			// unchanged tree, whose Complete() calls exclude one another)
+			return
+		}
+	}
+	if !parked {
+		return
+	}
+	r.holdSince[id], r.holdExpired[id] = r.relSeq, false
+	r.holdActive[id] = true
+	r.held++
+	r.cond.Broadcast()
+	timer := time.AfterFunc(holdBound, func() {
+		r.mu.Lock()
+		r.holdExpired[id] = true
+		r.cond.Broadcast()
+		r.mu.Unlock()
+	})
+	defer timer.Stop()
+	for r.holding(id) {
+		r.cond.Wait()
+	}
+	if r.overtaken(id) {
+		r.overtakes++
+	}
+	r.holdActive[id] = false
+	r.cond.Broadcast()
+}
+
+// overtaken (r.mu held): a stage released after the hold of stage id began has been handled completely.
+func (r *run) overtaken(id int) bool {
+	for j := range r.spec.Nodes {
+		if j != id && r.relAt[j] > r.holdSince[id] && r.handlersDone(j) {
+			return true
+		}
+	}
+	return false
+}
+
+// holding (r.mu held): Complete() of stage id is being held and will not return in this state
+// (a predicate, not a flag set by the holder: the main loop and the holder see the end of a hold
+// at the same moment).
+func (r *run) holding(id int) bool {
+	return r.holdActive[id] && !r.holdExpired[id] && !r.overtaken(id)
+}
+
+// hStage is what the pipeline gets: the harness stage with Execute overridden only to wrap the
+// two handlers the pipeline passes in (production baseStage.Execute runs them where and when it
+// always does), so that the harness knows when the pipeline's code for a stage has returned
+// without relying on what that code does (it used to wait for Stage.Complete() of the released
+// stage: a pipeline that accounts the completion to another stage, or drops it, then showed up
+// as a 5 s time-out only).
+type hStage struct {
+	*stage.VerifStage
+	r  *run
+	id int
+}
+
+func (h *hStage) Execute(node stage.PlanNode, completeHandle func(), errHandle func(err error)) {
+	h.VerifStage.Execute(node,
+		func() { h.r.handler(h.id, completeHandle) },
+		func(err error) { h.r.handler(h.id, func() { errHandle(err) }) })
+}
+
+func (r *run) handler(id int, fn func()) {
+	r.mu.Lock()
+	r.hCalls[id]++
+	r.hDepth[id]++
+	r.hExpectErr[id] = false
+	r.mu.Unlock()
+	returned := false
+	defer func() {
+		r.mu.Lock()
+		r.hDepth[id]--
+		if !returned && r.spec.Nodes[id].Async {
+			// panicking through the task of this stage into the pool's recover
+			r.hExpectErr[id] = true
+		}
+		r.cond.Broadcast()
+		r.mu.Unlock()
+	}()
+	fn()
+	returned = true
+}
+
+// handlersDone (r.mu held): the pipeline's code for stage i has run and returned.
+func (r *run) handlersDone(i int) bool {
+	return r.hCalls[i] > 0 && r.hDepth[i] == 0 && !r.hExpectErr[i]
 }
 
 type harnessOp struct {
@@ -307,6 +493,7 @@ func (r *run) planNode(id int) stage.PlanNode {
 	n := &r.spec.Nodes[id]
 	r.mu.Lock()
 	r.planned[id]++
+	r.noteRegistered(id)
 	r.mu.Unlock()
 	if n.Fault == faultPlan {
 		r.fault(id, "PP")
@@ -343,6 +530,37 @@ func (r *run) planNode(id int) stage.PlanNode {
 	}
 }
 
+// noteRegistered (r.mu held): stage id has just been registered with the state machine
+// (executeStage registers a stage right before it calls Plan()). Records how it is related to
+// the stages of the same identifier that are registered and not completed at this moment.
+func (r *run) noteRegistered(id int) {
+	s := r.spec
+	for j := range s.Nodes {
+		if j == id || !r.live[j] || s.identifier(j) != s.identifier(id) {
+			continue
+		}
+		rel := "other"
+		switch {
+		case s.Nodes[j].Parent == s.Nodes[id].Parent:
+			rel = "siblings"
+		case s.isAncestor(j, id):
+			rel = "ancestor"
+		case s.level(j) == s.level(id):
+			rel = "cousins"
+		}
+		mode := "mixed"
+		switch {
+		case s.Nodes[j].Async && s.Nodes[id].Async:
+			mode = "async"
+		case !s.Nodes[j].Async && !s.Nodes[id].Async:
+			mode = "sync"
+		}
+		r.collisions[rel] = true
+		r.collisions[rel+":"+mode] = true
+	}
+	r.live[id] = true
+}
+
 func (r *run) callback(err error) {
 	first := r.cbCount.Add(1) == 1
 	r.mu.Lock()
@@ -350,6 +568,7 @@ func (r *run) callback(err error) {
 		r.cbErr = err
 		r.plannedAtCb = append([]int(nil), r.planned...)
 		r.endedAtCb = append([]int(nil), r.ended...)
+		r.handlerAtCb = append([]int(nil), r.hCalls...)
 	}
 	r.seq = append(r.seq, "CB")
 	r.cond.Broadcast()
@@ -380,15 +599,16 @@ func (r *run) waitFor(pred func() bool) bool {
 	return true
 }
 
-// quiescent: every released stage has been completed by the state machine (Stage.Complete is
-// its last action before pending is decremented) and every async stage planned so far has
-// reached its gate. Then no pipeline code is running: all other started async stages are
-// parked on their gates and everything that runs inline has run. (A panic on a worker - of the
-// operator, of an inline descendant, of the planning of a child - ends in the pool's recover,
-// which completes the released stage through its error handler.)
+// quiescent: for every released stage the handler the pipeline gave to Stage.Execute (complete
+// or error handler) has run and returned, and every async stage planned so far has reached its
+// gate. Then no pipeline code is running: all other started async stages are parked on their
+// gates and everything that runs inline has run. (A panic on a worker - of the operator, of an
+// inline descendant, of the planning of a child - ends in the pool's recover, which calls the
+// released stage's error handler: a stage whose handler panicked on a worker is waited for
+// until that second call has returned.)
 func (r *run) quiescent() bool {
 	for i := range r.spec.Nodes {
-		if r.released[i] && r.completeCalls[i] == 0 {
+		if r.released[i] && !r.handlersDone(i) && !r.holding(i) {
 			return false
 		}
 		if n := &r.spec.Nodes[i]; n.Async && n.Fault != faultPlan && r.planned[i] > 0 && !r.arrived[i] {
@@ -432,6 +652,9 @@ func runCase(spec *caseSpec) (*result, error) {
 		planned: make([]int, n), began: make([]int, n), ended: make([]int, n), completeCalls: make([]int, n),
 		faulted: make([]int, n),
 		arrived: make([]bool, n), released: make([]bool, n), gates: make([]chan struct{}, n),
+		live: make([]bool, n), collisions: map[string]bool{},
+		hCalls: make([]int, n), hDepth: make([]int, n), hExpectErr: make([]bool, n),
+		relAt: make([]int, n), holdActive: make([]bool, n), holdExpired: make([]bool, n), holdSince: make([]int, n),
 	}
 	r.cond = sync.NewCond(&r.mu)
 	nAsync := 0
@@ -453,9 +676,9 @@ func runCase(spec *caseSpec) (*result, error) {
 	for i := range spec.Nodes {
 		id := i
 		if spec.Nodes[i].Async {
-			stages[i] = stage.NewVerifStage(ctx, pool, fmt.Sprintf("c19-stage-%d", i))
+			stages[i] = stage.NewVerifStage(ctx, pool, spec.identifier(i))
 		} else {
-			stages[i] = stage.NewVerifStage(nil, nil, fmt.Sprintf("c19-stage-%d", i))
+			stages[i] = stage.NewVerifStage(nil, nil, spec.identifier(i))
 		}
 		stages[i].PlanFn = func() stage.PlanNode { return r.planNode(id) }
 		stages[i].NextFn = func() []stage.Stage {
@@ -464,14 +687,20 @@ func runCase(spec *caseSpec) (*result, error) {
 			}
 			var next []stage.Stage
 			for _, c := range spec.Nodes[id].Children {
-				next = append(next, stages[c])
+				next = append(next, &hStage{VerifStage: stages[c], r: r, id: c})
 			}
 			return next
 		}
 		stages[i].CompleteFn = func() {
 			r.mu.Lock()
 			r.completeCalls[id]++
+			r.live[id] = false
 			r.seq = append(r.seq, fmt.Sprintf("C%d", id))
+			if r.ended[id] == 0 {
+				// the state machine completes a stage whose operator is still running (parked on
+				// its gate) or never ran: it took this stage for another one.
+				r.earlyComplete = append(r.earlyComplete, id)
+			}
 			// Only as the first panic of the case: Complete() of a stage is also called from the
 			// pool's own recover (error handler of a task that panicked), where a second panic
 			// is outside every recover of the process and would kill the test process (that
@@ -479,6 +708,9 @@ func runCase(spec *caseSpec) (*result, error) {
 			fire := spec.Nodes[id].Fault == faultComplete && (r.panics == 0 || completeFaultUnguarded)
 			r.cond.Broadcast()
 			r.mu.Unlock()
+			if spec.Nodes[id].HoldComplete {
+				r.hold(id)
+			}
 			if fire {
 				r.fault(id, "CP")
 			}
@@ -491,6 +723,8 @@ func runCase(spec *caseSpec) (*result, error) {
 		for i := range r.gates {
 			if !r.released[i] {
 				r.released[i] = true
+				r.relSeq++
+				r.relAt[i] = r.relSeq
 				close(r.gates[i])
 			}
 		}
@@ -513,7 +747,7 @@ func runCase(spec *caseSpec) (*result, error) {
 	execDone := make(chan struct{})
 	go func() {
 		defer close(execDone)
-		pipeline.Execute(stages[0])
+		pipeline.Execute(&hStage{VerifStage: stages[0], r: r, id: 0})
 	}()
 	select {
 	case <-execDone:
@@ -523,7 +757,7 @@ func runCase(spec *caseSpec) (*result, error) {
 
 	for herr == nil {
 		if !r.waitFor(r.quiescent) {
-			herr = errors.New("not quiescent: a released stage was never completed or a submitted stage never ran")
+			herr = errors.New("not quiescent: the handlers of a released stage never returned or a submitted stage never ran")
 			break
 		}
 		r.mu.Lock()
@@ -539,6 +773,8 @@ func runCase(spec *caseSpec) (*result, error) {
 		}
 		for _, i := range blocked {
 			r.released[i] = true
+			r.relSeq++
+			r.relAt[i] = r.relSeq
 			close(r.gates[i])
 		}
 		r.mu.Unlock()
@@ -565,9 +801,15 @@ func runCase(spec *caseSpec) (*result, error) {
 		CbCount: int(r.cbCount.Load()), CbErr: r.cbErr,
 		Planned: append([]int(nil), r.planned...), Began: append([]int(nil), r.began...), Ended: append([]int(nil), r.ended...),
 		CompleteCalls: append([]int(nil), r.completeCalls...), Faulted: append([]int(nil), r.faulted...),
-		PlannedAtCb: r.plannedAtCb, EndedAtCb: r.endedAtCb,
-		Seq: append([]string(nil), r.seq...),
+		PlannedAtCb: r.plannedAtCb, EndedAtCb: r.endedAtCb, HandlerAtCb: r.handlerAtCb,
+		EarlyComplete: append([]int(nil), r.earlyComplete...),
+		Seq:           append([]string(nil), r.seq...),
 	}
+	res.Held, res.Overtaken = r.held, r.overtakes
+	for c := range r.collisions {
+		res.Collisions = append(res.Collisions, c)
+	}
+	sort.Strings(res.Collisions)
 	return res, herr
 }
 
@@ -655,11 +897,65 @@ func checkOracle(spec *caseSpec, res *result) []violation {
 					add("early-callback", "stage %d was started after the completion callback", i)
 				} else if res.Planned[i] > 0 && res.EndedAtCb[i] != res.Planned[i] {
 					add("early-callback", "completion callback fired while started stage %d had not finished", i)
+				} else if res.Planned[i] > 0 && res.HandlerAtCb[i] == 0 {
+					// "finished" on the pipeline's side: the operator ended and the pipeline has
+					// been told so (the handler it passed to Stage.Execute was called). That the
+					// handler has RETURNED cannot be demanded: the callback is fired from inside
+					// the handler of the stage that finishes last, and a handler of another worker
+					// may be in its last instructions (after its decrement of pending).
+					add("early-callback", "completion callback fired before the pipeline's handler of started stage %d (%s) was called", i, spec.identifier(i))
 				}
 			}
 		}
 	}
 	return vs
+}
+
+// observations are things the check counts and prints as context of a violation but never
+// fails a case on: C19 speaks about the completion signal, not about Stage.Complete() calls.
+//
+//	stage-completed-twice          Complete() of one stage called more than once
+//	stage-completed-while-running  Complete() of a stage called although its operator had not
+//	                               ended / never ran (the pipeline took the stage for another one)
+func observations(spec *caseSpec, res *result) []violation {
+	var vs []violation
+	add := func(sig, f string, a ...any) { vs = append(vs, violation{sig, fmt.Sprintf(f, a...)}) }
+	for i := range spec.Nodes {
+		if res.CompleteCalls[i] > 1 {
+			add("stage-completed-twice", "Complete() of stage %d (%s) was called %d times", i, spec.identifier(i), res.CompleteCalls[i])
+		}
+	}
+	for _, i := range res.EarlyComplete {
+		what := "is still running"
+		if res.Began[i] == 0 {
+			what = "never ran"
+		}
+		add("stage-completed-while-running", "Complete() of stage %d (%s) was called although its operator %s; other stages started with the same identifier: %s",
+			i, spec.identifier(i), what, sameIdent(spec, res, i))
+	}
+	return vs
+}
+
+func contextText(spec *caseSpec, res *result) string {
+	var sb strings.Builder
+	for _, v := range observations(spec, res) {
+		fmt.Fprintf(&sb, "\n  (context, not a violation by itself: %s) %s", v.Sig, v.Text)
+	}
+	return sb.String()
+}
+
+// sameIdent lists the started stages that return the same identifier as stage i.
+func sameIdent(spec *caseSpec, res *result, i int) string {
+	var l []string
+	for j := range spec.Nodes {
+		if j != i && res.Planned[j] > 0 && spec.identifier(j) == spec.identifier(i) {
+			l = append(l, fmt.Sprint(j))
+		}
+	}
+	if len(l) == 0 {
+		return "none"
+	}
+	return strings.Join(l, ",")
 }
 
 // ---- evidence ----------------------------------------------------------------------------------
@@ -732,6 +1028,34 @@ func classify(spec *caseSpec, res *result) (bool, []string) {
 	}
 	if asyncSiblings {
 		cl = append(cl, "async-siblings>=2")
+	}
+	seenObs := map[string]bool{}
+	for _, v := range observations(spec, res) {
+		if !seenObs[v.Sig] {
+			seenObs[v.Sig] = true
+			cl = append(cl, "observed:"+v.Sig)
+		}
+	}
+	if res.Held > 0 {
+		cl = append(cl, "complete-held")
+	}
+	if res.Overtaken > 0 {
+		// (never on the unchanged tree: Complete() runs under the state machine's lock)
+		cl = append(cl, "complete-held:overtaken")
+	}
+	// identifiers: how they were generated, and which collisions were live during the run
+	if spec.IdentMode == "" {
+		cl = append(cl, "ident=unique")
+	} else {
+		cl = append(cl, "ident="+spec.IdentMode)
+	}
+	for _, c := range res.Collisions {
+		cl = append(cl, "same-ident-in-flight:"+c)
+	}
+	if len(res.Collisions) > 0 {
+		cl = append(cl, "same-ident-in-flight")
+	} else if spec.IdentMode != "" {
+		cl = append(cl, "same-ident-never-in-flight")
 	}
 	// completion order: the stage whose operator ended / whose fault fired last
 	lastEnded := -1
@@ -844,6 +1168,7 @@ func classify(spec *caseSpec, res *result) (bool, []string) {
 func sample(spec *caseSpec, res *result) any {
 	return map[string]any{
 		"tree":      spec.canon(),
+		"ident":     spec.IdentMode,
 		"events":    strings.Join(res.Seq, " "),
 		"callbacks": res.CbCount,
 		"err":       fmt.Sprint(res.CbErr),
@@ -870,6 +1195,7 @@ func genSpec(t *rapid.T, wave bool) *caseSpec {
 	if shape == 4 {
 		return genBurst(t, wave)
 	}
+	idents := newIdentGen(t)
 	// (rapid's IntRange is biased towards the lower bound, SampledFrom is uniform)
 	depth := rapid.SampledFrom([]int{1, 2, 2, 3, 3, 3, 4, 4}).Draw(t, "depth")
 	allowPanic := rapid.SampledFrom([]bool{false, false, false, true, true}).Draw(t, "allowPanic")
@@ -890,6 +1216,7 @@ func genSpec(t *rapid.T, wave bool) *caseSpec {
 			async = rapid.Bool().Draw(t, "async")
 		}
 		spec.Nodes[id].Async = async
+		idents.assign(t, spec, id)
 		fan := 0
 		if level < depth {
 			if level == 1 {
@@ -958,6 +1285,7 @@ func genSpec(t *rapid.T, wave bool) *caseSpec {
 	build(-1, 1)
 
 	assignReleaseOrder(t, spec)
+	idents.finish(spec)
 	return spec
 }
 
@@ -967,9 +1295,11 @@ func genSpec(t *rapid.T, wave bool) *caseSpec {
 // state machine at the same time.
 func genBurst(t *rapid.T, wave bool) *caseSpec {
 	spec := &caseSpec{Wave: wave}
+	idents := newIdentGen(t)
 	add := func(parent int, async bool, out outKind) int {
 		id := len(spec.Nodes)
 		spec.Nodes = append(spec.Nodes, nodeSpec{ID: id, Parent: parent, Async: async, Out: out})
+		idents.assign(t, spec, id)
 		if parent >= 0 {
 			spec.Nodes[parent].Children = append(spec.Nodes[parent].Children, id)
 		}
@@ -990,7 +1320,84 @@ func genBurst(t *rapid.T, wave bool) *caseSpec {
 		}
 	}
 	assignReleaseOrder(t, spec)
+	idents.finish(spec)
 	return spec
+}
+
+// identGen draws what Identifier() of every stage returns (nodeSpec.Ident). The mode is drawn
+// first and the label of a stage when the stage is created (not in a pass of its own at the end
+// of the case), so that rapid can remove a subtree without shifting these draws.
+//
+//	unique    every stage has an identifier of its own
+//	siblings  per parent: all children share one identifier (production: the
+//	          "Grouping[Shard(n)]" stages of a shard scan, the "TaskSend" stages), or they are
+//	          split over two identifiers, or they stay unique
+//	kind      one identifier per (level, sync/async): siblings and cousins of a kind collide
+//	level     identifiers drawn per stage from an alphabet of 1-2 per level: siblings, cousins
+//	free      identifiers drawn per stage from an alphabet of 1-3 for the whole tree: also
+//	          parent/child, ancestor/descendant and unrelated stages collide
+type identGen struct {
+	mode     string
+	alphabet int
+	sib      map[int]string // siblings mode: what the children of a stage get
+}
+
+func newIdentGen(t *rapid.T) *identGen {
+	g := &identGen{sib: map[int]string{}}
+	g.mode = rapid.SampledFrom([]string{"", "", "", "siblings", "siblings", "siblings", "kind", "level", "free", "free"}).Draw(t, "identMode")
+	switch g.mode {
+	case "level":
+		g.alphabet = rapid.SampledFrom([]int{1, 2}).Draw(t, "identAlphabet")
+	case "free":
+		g.alphabet = rapid.SampledFrom([]int{1, 2, 3}).Draw(t, "identAlphabet")
+	}
+	return g
+}
+
+// assign labels stage id (Parent and Async are set).
+func (g *identGen) assign(t *rapid.T, spec *caseSpec, id int) {
+	n := &spec.Nodes[id]
+	switch g.mode {
+	case "siblings":
+		g.sib[id] = rapid.SampledFrom([]string{"all", "all", "all", "split", "unique"}).Draw(t, "childIdents")
+		if n.Parent < 0 {
+			return
+		}
+		switch g.sib[n.Parent] {
+		case "all":
+			n.Ident = fmt.Sprintf("g%d", n.Parent)
+		case "split":
+			n.Ident = fmt.Sprintf("g%d.%d", n.Parent, rapid.SampledFrom(percent[:2]).Draw(t, "ident"))
+		}
+	case "kind":
+		k := "s"
+		if n.Async {
+			k = "a"
+		}
+		n.Ident = fmt.Sprintf("k%d%s", spec.level(id), k)
+	case "level":
+		n.Ident = fmt.Sprintf("l%d.%d", spec.level(id), rapid.SampledFrom(percent[:g.alphabet]).Draw(t, "ident"))
+	case "free":
+		n.Ident = fmt.Sprintf("f%d", rapid.SampledFrom(percent[:g.alphabet]).Draw(t, "ident"))
+	}
+}
+
+// finish: a case in which no two stages share an identifier is a case with unique identifiers.
+func (g *identGen) finish(spec *caseSpec) {
+	seen := map[string]bool{}
+	shared := false
+	for i := range spec.Nodes {
+		id := spec.identifier(i)
+		shared = shared || seen[id]
+		seen[id] = true
+	}
+	if shared {
+		spec.IdentMode = g.mode
+		return
+	}
+	for i := range spec.Nodes {
+		spec.Nodes[i].Ident = ""
+	}
 }
 
 // genFault: stage id (Parent and Async are set) is to panic; draws where (fault point) and with
@@ -1040,6 +1447,12 @@ func assignReleaseOrder(t *rapid.T, spec *caseSpec) {
 		for prio, id := range perm {
 			spec.Nodes[id].Prio = prio
 		}
+		// slow Complete(): in 1 case of 10, for about half of the async stages
+		if rapid.SampledFrom(percent[:10]).Draw(t, "holds") == 9 {
+			for _, id := range asyncIDs {
+				spec.Nodes[id].HoldComplete = rapid.Bool().Draw(t, "holdComplete")
+			}
+		}
 	}
 }
 
@@ -1060,6 +1473,7 @@ func runAndCheck(t interface {
 			for _, v := range checkOracle(spec, res) {
 				extra += fmt.Sprintf("\n  [%s] %s", v.Sig, v.Text)
 			}
+			extra += contextText(spec, res)
 		}
 		t.Fatalf("C19 violated: [stuck] %v (waited %v)%s\n tree:   %s\n events: %s", herr, waitBound, extra, spec.canon(), events)
 	}
@@ -1068,6 +1482,7 @@ func runAndCheck(t interface {
 		for _, v := range vs {
 			fmt.Fprintf(&sb, "\n  [%s] %s", v.Sig, v.Text)
 		}
+		sb.WriteString(contextText(spec, res))
 		t.Fatalf("C19 violated:%s\n tree:   %s\n events: %s\n callbacks=%d err=%v",
 			sb.String(), spec.canon(), strings.Join(res.Seq, " "), res.CbCount, res.CbErr)
 	}
@@ -1093,8 +1508,8 @@ func TestConcurrentCompletionStress(t *testing.T) {
 				t.Fatalf("C19 violated: [stuck] %v (repetition %d)\n tree:   %s", herr, rep, spec.canon())
 			}
 			if vs := checkOracle(spec, res); len(vs) > 0 {
-				t.Fatalf("C19 violated (repetition %d): [%s] %s\n tree:   %s\n events: %s\n callbacks=%d err=%v",
-					rep, vs[0].Sig, vs[0].Text, spec.canon(), strings.Join(res.Seq, " "), res.CbCount, res.CbErr)
+				t.Fatalf("C19 violated (repetition %d): [%s] %s%s\n tree:   %s\n events: %s\n callbacks=%d err=%v",
+					rep, vs[0].Sig, vs[0].Text, contextText(spec, res), spec.canon(), strings.Join(res.Seq, " "), res.CbCount, res.CbErr)
 			}
 		}
 	})
